@@ -1,7 +1,8 @@
-\* 4-bit bytes (base 16): shuffle of 0..4 elements, sample(n <= 4, k <= n); every tape of up to 4 bytes (65536 per case and length)
+\* 4-bit bytes (base 16): shuffle of 0..4 elements, sample(n <= 4, k <= n); tapes of up to 3 bytes explored, every tape of up to 4 bytes counted (65536 per case)
 CONSTANTS BW = 4
 MaxN = 4
-MaxLen = 4
+MaxLen = 3
+FibreLen = 4
 INIT Init
 NEXT Next
 CHECK_DEADLOCK FALSE
